@@ -305,7 +305,10 @@ OnFin(m, e) ==
             THEN Flag(m2, "C11", CallSig(m2, t, "locks-held-after-panic")) ELSE m2
       m4 == IF cu.faulted /\ (HeldBy(m3, t) \ (m3.dead \cup cu.h0)) # {}
             THEN Flag(m3, "C12", CallSig(m3, t, "fault=" \o m3.fop \o "/locks-held-after-raw-panic")) ELSE m3
-  IN [m4 EXCEPT !.cur[t] = NoCall, !.lastpan[t] = cu.panicked,
+      m5 == IF cu.on /\ ApiTry(cu.api) /\ cu.succ /\ cu.quiet /\ ~cu.panicked /\ cu.rel # "forget" /\ m4.dead = {}
+               /\ ~TableSame(m4, t)
+            THEN Flag(m4, "C13", CallSig(m4, t, "successful-try-not-undone-by-release")) ELSE m4
+  IN [m5 EXCEPT !.cur[t] = NoCall, !.lastpan[t] = cu.panicked,
                 !.kalive[t] = (e.keyback \/ (cu.rel = "forget" /\ cu.succ /\ ~cu.panicked))]
 
 \* C11: after a panic the thread's key must be obtainable again
@@ -388,6 +391,9 @@ MonStep(m, ev) ==
       [] ev.e = "done"     -> PostChecks([m EXCEPT !.fin[ev.t] = TRUE])
       [] ev.e = "end"      -> OnEnd(m, ev)
       [] ev.e = "deadlock" -> OnDeadlock(m, ev)
+      [] ev.e = "budget"   -> IF \E t \in DOMAIN m.cur : m.cur[t].on /\ m.cur[t].c # 0 /\ D(m.sid).C[m.cur[t].c].alg = "retry"
+                              THEN Flag(m, "C09", "retrying-acquisition-does-not-complete")
+                              ELSE Flag(m, "C01", "step-budget-exceeded")
       [] ev.e = "panic"    -> OnPanic(m, ev)
       [] ev.e = "rawpanic" -> PostChecks(OnRawPanic(m, ev))
       [] ev.e = "probe"    -> OnProbe(m, ev)
